@@ -23,11 +23,23 @@ def worker_init():
     base.load_repo()
 
 
+class _Offsets(list):
+    """character offset of every line start; .lines keeps the line texts (tree columns count UTF-8 bytes, as in CPython)"""
+
+
 def _offsets(src):
-    offs = [0]
-    for line in src.splitlines(keepends=True):
+    offs = _Offsets([0])
+    offs.lines = src.splitlines(keepends=True)
+    for line in offs.lines:
         offs.append(offs[-1] + len(line))
     return offs
+
+
+def _charcol(offs, lineno, bytecol):
+    line = offs.lines[lineno - 1] if 0 < lineno <= len(offs.lines) else ""
+    if line.isascii():
+        return bytecol
+    return len(line.encode("utf-8", "surrogatepass")[:bytecol].decode("utf-8", "ignore"))
 
 
 def walk_paths(tree):
@@ -58,7 +70,8 @@ def span_of(node, offs):
     if not hasattr(node, "lineno") or getattr(node, "end_lineno", None) is None:
         return None
     try:
-        return offs[node.lineno - 1] + node.col_offset, offs[node.end_lineno - 1] + node.end_col_offset
+        return (offs[node.lineno - 1] + _charcol(offs, node.lineno, node.col_offset),
+                offs[node.end_lineno - 1] + _charcol(offs, node.end_lineno, node.end_col_offset))
     except (IndexError, TypeError):
         return None
 
